@@ -20,10 +20,18 @@ THEOREMS = [
     'Ndn.C18.emitted_vector_is_received_reachable', 'Ndn.C18.timer_emits_decodable_reachable',
     'Ndn.C18.local_vector_received_reachable', 'Ndn.C18.reachable_loc_ne_nil',
     'Ndn.C18.encodeVector_reachable_fails_only_oversize',
+    # re-entrancy (the application publishes from inside the missing-data callback) and the timer task: the handler
+    # statement by statement with next_sync_timing / timer_rst_event in the state (Ndn.Svs.stepX)
+    'Ndn.C18.stepX_refines_step', 'Ndn.C18.timer_task_at_rest', 'Ndn.C18.recvPub_state_eq_recv_then_publishes',
+    'Ndn.C18.recvPub_eq_recv_then_publish', 'Ndn.C18.callback_publish_increments_and_emits_full',
+    'Ndn.C18.local_is_max_x', 'Ndn.C18.local_monotone_x', 'Ndn.C18.run_monotone_x', 'Ndn.C18.callback_iff_raised_x',
+    'Ndn.C18.suppression_emit_iff_x', 'Ndn.C18.callback_before_bookkeeping_delays_announcement',
+    'Ndn.C18.stepXB_refines', 'Ndn.C18.reentrant_state_reset_unobservable',
 ]
 PARTIAL = {}
 TRUSTED = [
-    'C18: time is abstracted - the timer expiry is an event of the model; asyncio wait_for/Event semantics are exercised only by the correspondence (virtual-time loop)',
+    'C18: time is abstracted - next_sync_timing is one of (a steady period, a suppression period, now), the expiry of a period is an event of the model, and the timer task is modelled as: runs after the handler has returned; reset event set -> cleared and the timeout recomputed from next_sync_timing, a timeout of 0 expires at once (Ndn.Svs.settle / fire); asyncio wait_for/Event semantics behind that are exercised only by the correspondence (virtual-time loop)',
+    'C18: the application callback is modelled as: k calls of new_data(), then return or raise; other re-entrant uses of the instance from inside the callback (stop(), start(), express_sync_interest()) are not events of the model',
     'C18: a received vector enters the model as the bytes of the name component name[-2]; the model decodes them with the generic TLV decoder (Ndn.Codec.parse, the function the C07/C08 theorems are about) over the StateVecWrapper schema regenerated from the live class, and catches the classes of the regenerated `except` clause; the name-length test before it (len(name) == len(prefix) + 2) is an event of its own (undecodable); the component is one complete TLV element, as Name.decode delivers it (on other byte strings the error log of the handler, Name.to_str(name) evaluated inside the except clause, can itself raise ValueError)',
     'C18: a vector with repeated node ids denotes the dict built from its entries (last entry wins); an entry whose name is empty is skipped like one without a name',
 ]
@@ -40,7 +48,11 @@ RULE = ('histories of 1..14 events over 4 node ids: received vectors (newer/olde
         'intervals, base prefix and node id as URI / component list / encoded bytes / alternate URI spelling, typed components, '
         'the root name as node id for publications only), publications BEFORE start(), between stop() and start() and '
         'immediately after start(), separate stop / start events, express_sync_interest() called by the application, a twin '
-        'instance used before this one is built')
+        'instance used before this one is built; a re-entrancy stream: the missing-data callback calls new_data() 1..3 times and '
+        'returns or raises (or raises without publishing), in the steady state and inside a suppression period, for vectors '
+        'that raise one or several entries / raise nothing / over-claim / name unknown nodes / are outdated elsewhere, followed '
+        'by timer expiries; the model answers emissions, local vector, protocol state and the period the timer waits for, '
+        'compared after every event of every stream')
 
 BASE = '/sync'
 NODES = ['/n0', '/n1', '/n2', '/n3']
@@ -276,24 +288,62 @@ def cases(rng, tier):
                 evs.append(['badlen'])
         yield {'seq0': seq0, 'events': evs}
     # the application publishes from inside the missing-data callback (the callback only has to be non-blocking): the
-    # publication must be announced promptly whatever the handler still does after the callback.  Oracle only.
-    for _ in range(120 if tier == 'quick' else 3000):
+    # publication must be announced promptly whatever the handler still does after the callback.  Model and oracle.
+    yield from _reentrant()
+    for _ in range(150 if tier == 'quick' else 4000):
         seq0 = rng.choice([0, 0, 1, 3])
         hint = {'/n0': seq0}
         evs = []
         for _ in range(rng.randint(1, 8)):
             r = rng.random()
             if r < 0.6:
-                evs.append([('rp' if rng.random() < 0.5 else 'r'), _vector(rng, hint)])
-                if evs[-1][0] == 'rp':
-                    hint['/n0'] = hint.get('/n0', 0) + 1       # (an upper bound: the callback may not fire)
+                kind = rng.choice(['rp', 'rp', 'rx', 'r', 'r'])
+                v = _vector(rng, hint)
+                if kind == 'r':
+                    evs.append(['r', v])
+                else:
+                    k = rng.choice([1, 1, 2, 3]) if kind == 'rp' else rng.choice([0, 1, 2])
+                    evs.append([kind, v, k])
+                    hint['/n0'] = hint.get('/n0', 0) + k       # (an upper bound: the callback may not fire)
             elif r < 0.75:
                 evs.append(['p'])
                 hint['/n0'] = hint.get('/n0', 0) + 1
             else:
                 evs.append(['t'])
-        if any(e[0] == 'rp' for e in evs):
+        if any(e[0] in ('rp', 'rx') for e in evs):
             yield {'seq0': seq0, 'events': evs}
+
+
+def _reentrant():
+    """the callback publishes k = 1..3 times and returns (`rp`) or raises (`rx`; k = 0: raises at once), in the steady
+    state and inside a suppression period; vectors that raise one / two entries, raise nothing, over-claim, name an
+    unknown node, are outdated in another entry, or are nowhere outdated and name no unknown node (then the handler
+    only re-arms the periodic timer: the case in which a misplaced callback loses the announcement for a whole
+    sync interval)"""
+    me, a, b = NODES[0], NODES[1], NODES[2]
+    for seq0 in (0, 2):
+        for kind, ks in (('rp', (1, 2, 3)), ('rx', (0, 1, 3))):
+            for k in ks:
+                # steady state, unknown node (opens a suppression period) / then the timer
+                yield {'seq0': seq0, 'events': [[kind, [[a, 3]], k], ['t'], ['t']]}
+                # steady state, known nodes, nowhere outdated
+                yield {'seq0': seq0, 'events': [['r', [[a, 2]]], ['t'], [kind, [[me, seq0], [a, 3]], k], ['t'], ['p'], ['t']]}
+                # steady state, raises one entry and is outdated in another
+                yield {'seq0': seq0, 'events': [['r', [[a, 5], [b, 5]]], ['t'], [kind, [[a, 7], [b, 1]], k], ['t']]}
+                # inside a suppression period (opened by an outdated vector): raises / then what the period decides
+                yield {'seq0': seq0, 'events': [['r', [[a, 5]]], ['t'], ['r', [[a, 1]]], [kind, [[a, 9]], k], ['t'], ['t']]}
+                yield {'seq0': seq0, 'events': [['r', [[a, 5]]], ['t'], ['r', [[a, 1]]], [kind, [[a, 9], [b, 2]], k],
+                                                ['r', [[a, 9], [b, 2], [me, seq0 + k]]], ['t']]}
+                # two raised entries in one vector: one callback, one announcement
+                yield {'seq0': seq0, 'events': [[kind, [[a, 3], [b, 4]], k], ['t'], [kind, [[a, 4], [b, 6]], k], ['t']]}
+                # the callback does not fire: equal / older vector, over-claiming vector, empty vector
+                yield {'seq0': seq0, 'events': [['r', [[a, 3]]], ['t'], [kind, [[a, 3]], k], [kind, [[a, 1]], k], ['t'],
+                                                [kind, [[me, seq0 + 1], [a, 9]], k], [kind, [], k], ['t']]}
+                # two receptions in a row whose callbacks publish, then a publication from outside
+                yield {'seq0': seq0, 'events': [[kind, [[a, 1]], k], [kind, [[a, 2]], k], ['p'], ['t'], [kind, [[b, 1]], k]]}
+    # the seeded-change input (C18-6) in both forms
+    yield {'seq0': 0, 'events': [['rp', [['/n3', 10], ['/n3', 10]]]]}
+    yield {'seq0': 0, 'events': [['r', [[a, 2]]], ['t'], ['rp', [[me, 0], [a, 3]], 1], ['t']]}
 
 
 def _byte_cases(rng, n):
@@ -329,9 +379,17 @@ def shrink(case):
     for i in range(len(evs)):
         yield mk(evs[:i] + evs[i + 1:])
     for i, e in enumerate(evs):
-        if e[0] in ('r', 'r@') and len(e[1]) > 1:
+        if e[0] in ('r', 'r@', 'rp', 'rx') and len(e[1]) > 1:
             for j in range(len(e[1])):
-                yield mk(evs[:i] + [[e[0], e[1][:j] + e[1][j + 1:]]] + evs[i + 1:])
+                yield mk(evs[:i] + [[e[0], e[1][:j] + e[1][j + 1:]] + e[2:]] + evs[i + 1:])
+        if e[0] in ('rp', 'rx'):
+            k = e[2] if len(e) > 2 else 1
+            if e[0] == 'rx':
+                yield mk(evs[:i] + ([['rp', e[1], k]] if k else [['r', e[1]]]) + evs[i + 1:])
+            if k > 1:
+                yield mk(evs[:i] + [[e[0], e[1], k - 1]] + evs[i + 1:])
+            if e[0] == 'rp':
+                yield mk(evs[:i] + [['r', e[1]]] + evs[i + 1:])
         if e[0] in ('r@', 'p@'):
             yield mk(evs[:i] + [[e[0][0]] + e[1:]] + evs[i + 1:])
     for k in ('twin', 'intervals', 'base_arg'):
@@ -361,6 +419,28 @@ class _FakeApp:
 
     def express(self, name, validator, **kw):
         self.sent.append(name)
+
+
+class CallbackFailed(Exception):
+    """what the application's callback raises in an 'rx' event"""
+
+
+def _due_class(inst, now):
+    """which period the timer waits for, read off next_sync_timing: 's' = a sample of the steady period, 'u' = a sample
+    of the suppression period, 'n' = now or overdue; None when the two sample ranges overlap at this value (the
+    constructor stream has such intervals) or the value lies in neither"""
+    d = inst.next_sync_timing - now
+    if d <= 1e-9:
+        return 'n'
+    si, su = inst.sync_interval, inst.suppression_interval
+    eps = 2e-3
+    in_s = 0.9 * si - eps <= d <= 1.1 * si + eps
+    in_u = 0.5 * su - eps <= d <= 1.5 * su + eps
+    if in_s and not in_u:
+        return 's'
+    if in_u and not in_s:
+        return 'u'
+    return None if in_s else '?'
 
 
 def _canon_vec(d):
@@ -398,7 +478,18 @@ def run_impl(case):
     svs_sync.time, svs_sync.secrets = _T, _S
     try:
         missing = []
-        pub_in_cb = []       # 'rp': the application publishes from inside the missing-data callback (it is only required not to block)
+        # 'rp' / 'rx': what the application does inside the missing-data callback (it is only required not to block):
+        # [k, raises] = call new_data() k times, then return / raise.  Every invocation during that handler call does it.
+        cb_plan = []
+
+        def _on_missing(_inst):
+            missing.append(1)
+            if cb_plan:
+                k, raises = cb_plan[0]
+                for _ in range(k):
+                    inst.new_data()
+                if raises:
+                    raise CallbackFailed('application callback failed')
         app = _FakeApp()
         me_uri = case.get('me', NODES[0])
         base_uri = _base_uri(case)
@@ -426,7 +517,7 @@ def run_impl(case):
             kw = {'sync_interval': case['intervals'][0], 'suppression_interval': case['intervals'][1]}
         inst = svs_sync.SvsInst(_name_arg(enc, case['base_arg']) if case.get('base_arg') else BASE,
                                 _name_arg(enc, case['me_arg']) if case.get('me_arg') else me_uri,
-                                lambda i: (missing.append(1), pub_in_cb.pop()() if pub_in_cb else None), None, None,
+                                _on_missing, None, None,
                                 last_used_seq_num=case['seq0'], **kw)
         running = False
         initial = {'local': _canon_vec(inst.local_sv), 'self_seq': inst.self_seq}
@@ -457,6 +548,7 @@ def run_impl(case):
             rec['local'] = _canon_vec(inst.local_sv)
             rec['state'] = inst.state.name
             rec['self_seq'] = inst.self_seq
+            rec['due'] = None if rec.get('exact') or not rec['running'] or not running else _due_class(inst, loop.time())
             trace.append(rec)
 
         for ev in case['events']:
@@ -476,12 +568,13 @@ def run_impl(case):
             if exact:
                 rec['exact'] = True
                 loop._vt = max(inst.next_sync_timing, loop.time())
-            if kind in ('r', 'rp', 'raw', 'badlen', 'comp'):
-                if kind == 'rp':
-                    pub_in_cb[:] = [inst.new_data]
+            if kind in ('r', 'rp', 'rx', 'raw', 'badlen', 'comp'):
+                if kind in ('rp', 'rx'):
+                    cb_plan[:] = [[ev[2] if len(ev) > 2 else 1, kind == 'rx']]
+                    rec['cb'] = list(cb_plan[0])
                 if kind == 'comp':
                     comp = bytes.fromhex(ev[1])
-                elif kind in ('r', 'rp'):
+                elif kind in ('r', 'rp', 'rx'):
                     pkt = StateVecWrapper()
                     pkt.val = StateVec()
                     pkt.val.entries = []
@@ -518,7 +611,7 @@ def run_impl(case):
                         loop.call_now(handler, name, None, None, None)
                 except Exception as e:           # noqa
                     exc = c18_bytes.exc_name(e)
-                pub_in_cb.clear()
+                cb_plan.clear()
                 if exact:
                     # whether the timer still expired at this instant is read off its observable effects: a timer in
                     # steady state emits, a timer in suppression returns to steady state
@@ -582,17 +675,17 @@ def _model_recs(impl):
 def model_line(case, impl):
     if case['seq0'] < 0:
         return None             # the model's sequence numbers are naturals: oracle only
-    if any(e[0] == 'rp' for e in case['events']):
-        return None             # a publication made from inside the missing-data callback: one record, two model events; oracle only
     recs, pre = _model_recs(impl)
     if not any(r['ev'] == 'start' or r.get('running', True) for r in impl['trace']) and impl['trace']:
         return None             # never started
     toks = []
     for rec in recs:
-        if rec['ev'] in ('r', 'raw', 'badlen', 'comp'):
+        if rec['ev'] in ('r', 'rp', 'rx', 'raw', 'badlen', 'comp'):
             if rec.get('comp') is not None:
-                # the real encoded component; `=<lib>` lets the driver compare its own decoder with the library's
-                toks.append('b:' + (rec['comp'] or '-') + '=' + rec['lib_view'])
+                # the real encoded component; `=<lib>` lets the driver compare its own decoder with the library's;
+                # c<k> / x<k>: the application's callback calls new_data() k times and returns / raises
+                head = 'b' if not rec.get('cb') else ('x' if rec['cb'][1] else 'c') + str(rec['cb'][0])
+                toks.append(head + ':' + (rec['comp'] or '-') + '=' + rec['lib_view'])
             else:
                 toks.append('u')
         else:
@@ -612,21 +705,35 @@ def model_obs(answer, case, impl):
     for tok in answer.split()[1:]:
         tok, _, em = tok.partition('#')
         outs, loc = tok.split('@')
+        loc, timer = loc.split('~')
         o = []
         if outs.startswith('!'):
             o = [['X', outs[1:]]]
-        elif outs != '-':
-            for x in outs.split('+'):
-                o.append('M' if x == 'M' else ['E', _pvec(x[2:-1])])
+        else:
+            outs, bang, _ = outs.partition('!callback')
+            if bang:
+                o.append(['X', CallbackFailed.__name__])     # the exception of the application's callback propagated
+            if outs != '-':
+                for x in outs.split('+'):
+                    o.append('M' if x == 'M' else ['E', _pvec(x[2:-1])])
         # what the model's encoder put into the name component, read back by the library's decoder (entry order
         # inside the component is not part of the property: compared as sorted vectors)
         from props import c18_bytes
-        out.append([o, _pvec(loc), [c18_bytes.read_back(h) for h in em.split(',')] if em else []])
+        # protocol state and the period the timer task waits for (`*`: reset event left set - never, by
+        # Ndn.C18.timer_task_at_rest)
+        out.append([o, _pvec(loc), [c18_bytes.read_back(h) for h in em.split(',')] if em else [],
+                    {'T': 'SyncSteady', 'S': 'SyncSuppression'}[timer[0]], timer[1:]])
     # a publication while the instance is not running cannot be announced before start(): the model's emission for it
     # is the one the oracle demands of the following start()
     for k, rec in enumerate(_model_recs(impl)[0]):
-        if rec['ev'] == 'p' and not rec.get('running', True) and k < len(out):
-            out[k] = [[], out[k][1], []]
+        if k >= len(out):
+            break
+        if rec['ev'] == 'p' and not rec.get('running', True):
+            out[k] = [[], out[k][1], []] + out[k][3:]
+        if rec.get('due') is None:
+            # the timer is not observed for this record: the instance is not running, the record was taken before the
+            # timer task ran (`exact`), or the sample ranges of the two periods overlap at the value read
+            out[k][4] = None
     return out
 
 
@@ -638,7 +745,7 @@ def impl_obs(impl):
             o = [['X', rec['raised']]] + o      # the handler raised: the model names the class that propagates
         # the model lists the callback after state update but emissions are separate events; order M then E
         # third item: the vectors carried by the emitted name components (the model's come from its own encoder)
-        out.append([o, rec['local'], rec['emitted']])
+        out.append([o, rec['local'], rec['emitted'], rec['state'], rec.get('due')])
     return out
 
 
@@ -684,7 +791,7 @@ def oracle(case, impl):
         for i, q in before.items():
             if after.get(i, 0) < q:
                 return f'event {k}: local vector decreased at {i}'
-        if rec['ev'] in ('r', 'rp', 'raw', 'badlen', 'comp'):
+        if rec['ev'] in ('r', 'rp', 'rx', 'raw', 'badlen', 'comp'):
             dec = rec['decoded']
             accepted = isinstance(dec, list) and len(dec) > 0
             vec = {}
@@ -700,11 +807,16 @@ def oracle(case, impl):
                     if exp.get(i, 0) < q:
                         exp[i] = q
                 raised = any(before.get(i, 0) < q for i, q in vec.items())
-                # 'rp': the application answers the missing-data callback by publishing at once (from inside it)
-                published = rec['ev'] == 'rp' and raised
-                if published:
-                    if rec['self_seq'] != rec['self_seq_before'] + 1:
-                        return f'event {k}: publish (from the missing-data callback) did not increase the sequence number by one'
+                # 'rp' / 'rx': the application answers the missing-data callback by publishing at once, n times, from
+                # inside it (and returns or raises: the statement holds either way)
+                n_pub = rec['cb'][0] if rec.get('cb') else 0
+                published = raised and n_pub > 0
+                if rec['missing'] > 1:
+                    return f'event {k}: callback fired more than once'
+                if published and rec['missing'] == 1:
+                    if rec['self_seq'] != rec['self_seq_before'] + n_pub:
+                        return (f'event {k}: {n_pub} publication(s) from the missing-data callback did not increase the '
+                                f'sequence number by one each')
                     exp[self_id] = rec['self_seq']
                 # entries equal to 0 may or may not be materialised; compare as total functions
                 keys = set(exp) | set(after)
@@ -721,9 +833,13 @@ def oracle(case, impl):
             if rec['missing'] > 1:
                 return f'event {k}: callback fired more than once'
             if published:
-                if rec['emitted'] != [rec['local']]:
-                    return (f'event {k}: a publication made from the missing-data callback did not promptly emit exactly '
-                            f'one sync Interest with the full vector (emitted {len(rec["emitted"])})')
+                # every publication is announced promptly: each emission carries the full vector of its moment (at least
+                # the previous own number + 1), the last one the final vector, and no more emissions than publications
+                own = lambda v: dict((a, b) for a, b in v).get(self_id, -1)      # noqa
+                if not rec['emitted'] or rec['emitted'][-1] != rec['local'] or len(rec['emitted']) > n_pub or \
+                        any(own(v) <= rec['self_seq_before'] for v in rec['emitted']):
+                    return (f'event {k}: a publication made from the missing-data callback did not promptly emit '
+                            f'a sync Interest with the full vector (emitted {len(rec["emitted"])})')
                 heard = None
                 mode = None
                 continue
@@ -825,6 +941,10 @@ def tags(case, impl):
             t.append('callback')
         if rec['ev'] == 't':
             t.append('timer-in-' + rec['state_before'] + ('-emit' if rec['emitted'] else '-silent'))
+        if rec.get('cb'):
+            t.append('cb-pub:%d%s' % (rec['cb'][0], '-raises' if rec['cb'][1] else ''))
+            if rec['missing']:
+                t.append('cb-fired-in-' + rec['state_before'])
         if rec['ev'] in ('r', 'raw', 'comp') and not isinstance(rec.get('decoded'), list):
             t.append('undecodable')
         if rec['ev'] == 'comp':
@@ -868,10 +988,25 @@ LEVEL_TEXT = ('Lean 4 theorems over a hand-written model of SvsInst (sync_handle
               'proved to be an invariant over every history of arbitrary received bytes (< 2^64 long), publications and timer '
               'expiries from start() (the decoder only delivers well-formed entries: C08.parse_wf), so the *_reachable '
               'versions need no such hypothesis; the one bound left is own sequence number + 1 < 2^64 before a publication. '
+              'Re-entrancy and the timer task: a second, statement-level model (Ndn.Svs.stepX: sync_handler, new_data and on_timer '
+              'in the order of their statements, next_sync_timing as steady period / suppression period / now and '
+              'timer_rst_event in the state, the timer task running after the handler) with events for a missing-data callback '
+              'that calls new_data() k times and returns or raises. Proved for every state at rest and every history: it '
+              'refines the atomic model on the old events; the timer task is always parked on the period matching the protocol '
+              'state (no publication left unannounced); a reception whose callback publishes = the reception followed by the '
+              'publications (state for every k; state and outputs for k = 1: the position of the callback is unobservable); '
+              'publications made inside the callback are announced within the same step by one Interest carrying the final '
+              'vector, and leave a fresh steady period; local_is_max / monotonicity / callback-iff-raised / the suppression '
+              'decision hold in the extended model; for the variant that invokes the callback before the timer bookkeeping '
+              '(seeded C18-6) the equivalence fails on EVERY raising vector (no emission, timer parked on a whole period); a '
+              're-entrant new_data() that does not reset self.state is provably unobservable. The driver runs this model on '
+              'every event of every stream and also answers protocol state and timer period. '
               'The model is tied to the code on every run by differential execution of the compiled model against the real '
               'SvsInst on a virtual-time asyncio loop, plus the property oracle evaluated on the implementation.')
-LEVEL_NOTE = ('Proof is about the model; model=code is sampled (differential testing), not proved. Timer expiry is an abstract '
-              'event. Received vectors reach the model as component bytes (decoded by the model\'s own generic decoder, compared '
+LEVEL_NOTE = ('Proof is about the model; model=code is sampled (differential testing), not proved. The expiry of a timer period '
+              'is an abstract event; that the timer task runs right after the handler and fires at once on a zero timeout is the '
+              'rendering of asyncio in the model (checked against the real loop on every case). '
+              'Received vectors reach the model as component bytes (decoded by the model\'s own generic decoder, compared '
               'with the library\'s on every case); the components the model\'s encoder emits are read back by the library\'s decoder.')
 TECHNIQUE = 'Lean 4 proof (induction over event histories, ghost-state invariant) + model/implementation correspondence check'
 DESIGN_REF = 'DESIGN.md section 7, C18'
